@@ -1,8 +1,124 @@
 import ErdosVerif.Driver.Util
+import ErdosVerif.Model.Strl
+import ErdosVerif.Model.StrlRef
 namespace ErdosVerif.Driver.Strl
-open Lean ErdosVerif.Driver
+open Lean ErdosVerif.Driver ErdosVerif.Strl
 
-/-- Suite handler: one JSON case in, one JSON reply out (stub until the suite is built). -/
-def handle (_j : Json) : Json := Json.mkObj [("protocol_error", Json.str "suite-not-built")]
+/-! Suite "strl": one STRL tree + partitions + context per line.
+
+Request
+  {"suite":"strl","parts":[{"id":0,"name":"P0","qty":2},…],"avail":[0,…],
+   "now":0,"gran":1,"tree":<node>,"assigns":[[v0,v1,…],…]}
+node
+  {"t":"choose","name":s,"strategy":s,"parts":[ids],"n":k,"start":t,"dur":d,"u":z}
+  {"t":"alloc","name":s,"allocs":[[pid,qty],…],"start":t,"dur":d}
+  {"t":"obj"|"min"|"max","name":s,"ch":[node,…]}
+  {"t":"lt","name":s,"ch":[a,b]}
+  {"t":"scale","name":s,"f":z,"disregard":b,"ch":[c]}
+Reply
+  {"err":cls} | {"err":null,"vars":[…],"cons":[…],"obj":{…},"results":[…]}
+  with "semopt":true in the request the reply carries "semopt": the brute-force optimum of
+  the tree under the reference semantics (Model/StrlRef.lean), null if even the empty
+  schedule is invalid.
+Variables are listed in the model's order; terms and assignments refer to
+positions in that list (-1 = constant term).
+-/
+
+partial def parseExpr (j : Json) : Except String Expr := do
+  let t ← fldStr j "t"
+  let name ← fldStr j "name"
+  let kids : Except String (List Expr) := do
+    let ch ← fldArr j "ch"
+    mapM' parseExpr ch
+  match t with
+  | "choose" =>
+    let parts ← (← fldArr j "parts").mapM (fun x => x.getNat?)
+    let strategy := match fldStr j "strategy" with | .ok s => s | .error _ => ""
+    return .choose name strategy parts (← fldNat j "n") (← fldNat j "start") (← fldNat j "dur") (← fldInt j "u")
+  | "alloc" =>
+    let al ← (← fldArr j "allocs").mapM (fun x => do
+      let a ← x.getArr?
+      match a.toList with
+      | [p, q] => return ((← p.getNat?), (← q.getNat?))
+      | _ => throw "bad alloc")
+    return .alloc name al (← fldNat j "start") (← fldNat j "dur")
+  | "obj" => return .obj name (← kids)
+  | "min" => return .min name (← kids)
+  | "max" => return .max name (← kids)
+  | "lt" =>
+    match (← kids) with
+    | [a, b] => return .lt name a b
+    | _ => throw "lt-arity"
+  | "scale" =>
+    match (← kids) with
+    | [c] => return .scale name (← fldInt j "f") (← fldBool j "disregard") c
+    | _ => throw "scale-arity"
+  | k => throw s!"unknown-node {k}"
+
+def parseCtx (j : Json) : Except String Ctx := do
+  let parts ← (← fldArr j "parts").mapM (fun p => do
+    return ({ id := (← fldNat p "id"), name := (← fldStr p "name"), qty := (← fldNat p "qty") } : Partition))
+  let avail ← (← fldArr j "avail").mapM (fun x => x.getNat?)
+  return { parts, avail, now := (← fldNat j "now"), gran := (← fldNat j "gran") }
+
+def idxOf (m : MipModel) (v : VarId) : Int :=
+  match m.vars.findIdx? (fun x => x.id == v) with
+  | some i => i
+  | none => -2
+
+def jTerms (m : MipModel) (ts : List (Int × VarId)) : Json :=
+  jList (fun (c, v) => Json.arr #[jInt c, jInt (idxOf m v)]) ts
+
+def jUTerms (m : MipModel) (ts : UTerms) : Json :=
+  jList (fun (c, v) => Json.arr #[jInt c, match v with
+    | some v => jInt (idxOf m v)
+    | none => jInt (-1)]) ts
+
+def jOp : Op → String
+  | .le => "LE" | .eq => "EQ" | .ge => "GE"
+
+def jModel (m : MipModel) : List (String × Json) :=
+  [("vars", jList (fun (v : Var) => Json.mkObj [("name", Json.str v.name),
+      ("type", Json.str (match v.ty with | .int => "I" | .bin => "B")),
+      ("lb", jOptInt v.lb), ("ub", jOptInt v.ub)]) m.vars),
+   ("cons", jList (fun (c : Constr) => Json.mkObj [("name", Json.str c.name),
+      ("op", Json.str (jOp c.op)), ("rhs", jInt c.rhs), ("terms", jTerms m c.terms)]) m.cons),
+   ("obj", Json.mkObj [("ub", jOptInt m.objUb), ("terms", jUTerms m m.obj)])]
+
+def jPlacement (p : Placement) : Json :=
+  Json.mkObj [("name", Json.str p.name), ("start", jInt p.start), ("end", jInt p.stop),
+    ("alloc", jList (fun (a : Nat × Int × Int) => Json.arr #[jNat a.1, jInt a.2.1, jInt a.2.2]) p.allocs)]
+
+def jSol (s : Sol) : Json :=
+  Json.mkObj [("util", Json.bool s.util), ("start", jOptInt s.start), ("end", jOptInt s.stop),
+    ("utility", jOptInt s.utility), ("placements", jList jPlacement s.placements)]
+
+def mkAssign (m : MipModel) (vals : List Int) : Assign := fun v =>
+  match m.vars.findIdx? (fun x => x.id == v) with
+  | some i => vals.getD i 0
+  | none => 0
+
+def handleE (j : Json) : Except String Json := do
+  let ctx ← parseCtx j
+  let tree ← parseExpr (← fld j "tree")
+  match wf ctx tree with
+  | some cls => return errJ cls
+  | none =>
+    let m := compile ctx tree
+    let assigns := match fldArr j "assigns" with | .ok a => a | .error _ => []
+    let results ← assigns.mapM (fun a => do
+      let vals ← (← a.getArr?).toList.mapM (fun x => x.getInt?)
+      let σ := mkAssign m vals
+      return Json.mkObj [("feasible", Json.bool (m.feasible σ)),
+        ("objective_value", jInt (m.objective σ)),
+        ("root", jSol (populate ctx σ tree))])
+    -- brute-force optimum under the reference semantics (only on request: exponential)
+    let semopt : List (String × Json) := match fldBool j "semopt" with
+      | .ok true => [("semopt", jOptInt (optUtility ctx tree))]
+      | _ => []
+    return Json.mkObj ([("err", Json.null)] ++ jModel m ++ [("results", Json.arr results.toArray)] ++ semopt)
+
+/-- Suite handler: one JSON case in, one JSON reply out. -/
+def handle (j : Json) : Json := guardE (handleE j)
 
 end ErdosVerif.Driver.Strl
